@@ -579,13 +579,50 @@ fn bound(rng: &mut Rng, keys: &[Bs]) -> Option<Bs> {
     }
 }
 
+/// after a mutation: a get and some ranges through every view.  Half of the time the accessor is drawn
+/// per operation (so the long-lived pass sees short runs), otherwise all probes of a view use the same
+/// accessor: in the long-lived pass they are then answered by ONE view object.
 fn probes(rng: &mut Rng, views: &[VRef], keys: &[Bs], nranges: usize, ops: &mut Vec<Op>) {
     for v in views {
-        ops.push(Op::VGet(v.clone(), rng.chance(1, 2), rng.pick(keys).clone()));
+        let fixed = match rng.below(4) {
+            2 => Some(true),
+            3 => Some(false),
+            _ => None,
+        };
+        let mu = |rng: &mut Rng| fixed.unwrap_or_else(|| rng.chance(1, 2));
+        ops.push(Op::VGet(v.clone(), mu(rng), rng.pick(keys).clone()));
         for i in 0..nranges {
             let (s, e) = if i == 0 && rng.chance(1, 2) { (None, None) } else { (bound(rng, keys), bound(rng, keys)) };
-            ops.push(Op::VRange(v.clone(), rng.chance(1, 2), s, e, rng.chance(1, 2)));
+            ops.push(Op::VRange(v.clone(), mu(rng), s, e, rng.chance(1, 2)));
         }
+    }
+}
+
+/// 2-6 consecutive operations on ONE view (mostly a mutable one) over three keys of the pool: in the
+/// long-lived pass they go through one view object.  Few keys and more removals than writes, so that
+/// remove(absent key) followed by set / remove(present key) / reads, and set - remove - set of one key,
+/// are common; a read-only view gets reads and a few (rejected) writes.
+fn burst(rng: &mut Rng, out: &mut Out, views: &[VRef], keys: &[Bs], ops: &mut Vec<Op>) {
+    let v = rng.pick(views).clone();
+    let mu = !rng.chance(3, 20);
+    let n = 2 + rng.below(5) as usize;
+    let ks: Vec<Bs> = (0..3).map(|_| rng.pick(keys).clone()).collect();
+    out.stat(if mu { "burst_on_mutable_view" } else { "burst_on_readonly_view" }, 1);
+    for _ in 0..n {
+        let c = rng.below(100);
+        let k = rng.pick(&ks).clone();
+        let (w_set, w_del, w_get) = if mu { (32, 70, 85) } else { (8, 16, 60) };
+        ops.push(if c < w_set {
+            Op::VSet(v.clone(), mu, k, val(rng))
+        } else if c < w_del {
+            Op::VDel(v.clone(), mu, k)
+        } else if c < w_get {
+            Op::VGet(v.clone(), mu, k)
+        } else if rng.chance(1, 2) {
+            Op::VRange(v.clone(), mu, None, None, rng.chance(1, 2))
+        } else {
+            Op::VRange(v.clone(), mu, bound(rng, keys), bound(rng, keys), rng.chance(1, 2))
+        });
     }
 }
 
@@ -599,6 +636,11 @@ fn random_case(rng: &mut Rng, out: &mut Out, long_ok: bool) -> Input {
     let nr = if long_ok { 1 } else { 2 };
     let mut ops = vec![];
     for _ in 0..n {
+        if rng.chance(3, 10) {
+            burst(rng, out, &views, &keys, &mut ops);
+            probes(rng, &views, &keys, nr, &mut ops);
+            continue;
+        }
         let c = rng.below(100);
         let v = rng.pick(&views).clone();
         let mutation = c < 70;
@@ -751,22 +793,24 @@ fn long_lived_stats(out: &mut Out, inp: &Input, obs: &[(Ans, Vec<(Bs, Bs)>)]) {
                 out.stat("long_lived_ops", (j - i) as u64);
             }
             if mu && j - i >= 2 {
-                // 0: nothing yet, 1: just after remove(absent), 2: after remove(absent) then reads only
+                // pending_absent: the last write of the run so far was a remove of an absent key (reads_since:
+                // and reads followed it); set_del: 1 = a set seen, 2 = a set and then a remove(present) seen
                 let mut pending_absent = false;
                 let mut reads_since = false;
-                let mut seen_set_then_del = 0u8; // 1: set seen, 2: set then remove(present) seen
+                let mut set_del = 0u8;
                 for x in i..j {
-                    let unchanged = x > 0 && obs[x].1 == obs[x - 1].1 || x == 0 && obs[x].1.is_empty();
+                    let unchanged = if x > 0 { obs[x].1 == obs[x - 1].1 } else { obs[x].1.is_empty() };
                     match &ops[x] {
                         Op::VSet(..) => {
                             if pending_absent {
                                 out.stat(if reads_since { "ll_remove_absent_reads_then_set" } else { "ll_remove_absent_then_set" }, 1);
                             }
-                            if seen_set_then_del == 2 {
+                            if set_del == 2 {
                                 out.stat("ll_set_remove_set", 1);
                             }
-                            seen_set_then_del = 1;
+                            set_del = 1;
                             pending_absent = false;
+                            reads_since = false;
                         }
                         Op::VDel(..) => {
                             if pending_absent {
@@ -775,8 +819,8 @@ fn long_lived_stats(out: &mut Out, inp: &Input, obs: &[(Ans, Vec<(Bs, Bs)>)]) {
                                     1,
                                 );
                             }
-                            if !unchanged && seen_set_then_del == 1 {
-                                seen_set_then_del = 2;
+                            if !unchanged && set_del == 1 {
+                                set_del = 2;
                             }
                             pending_absent = unchanged;
                             reads_since = false;
@@ -908,6 +952,10 @@ fn emit(out: &mut Out, inp: &Input) {
     let mut js = serde_json::json!({"input": inp, "observed": js_obs});
     if long_lived {
         js["observed_long_lived"] = serde_json::Value::Array(js_obs2);
+        js["observation_index"] = serde_json::json!(format!(
+            "k < {n}: observed[k] (fresh view per operation); k >= {n}: observed_long_lived[k - {n}] (one view object per run of consecutive operations on one view)",
+            n = inp.ops.len()
+        ));
     }
     out.push(Case {
         key: format!("{:?}", inp),
@@ -920,6 +968,8 @@ fn emit(out: &mut Out, inp: &Input) {
 fn fixed_corpus() -> Vec<Input> {
     let fff = VRef::Single(bs(b"f\xff\xff"));
     let zero = VRef::Multi(vec![]);
+    let foo = VRef::Single(bs(b"foo"));
+    let foo_e = VRef::Multi(vec![bs(b"foo"), bs(b"")]);
     vec![
         // F1: the zero-segment path lists every base entry (range without end used to be empty)
         Input {
@@ -967,6 +1017,58 @@ fn fixed_corpus() -> Vec<Input> {
                 Op::VGet(VRef::Single(Bs(vec![7; LONG + 1])), false, bs(b"k")),
                 Op::VSet(VRef::Multi(vec![bs(b"a"), Bs(vec![7; LONG + 1])]), true, bs(b"k"), bs(b"v")),
                 Op::VRange(VRef::Single(Bs(vec![7; LONG + 1])), true, None, None, true),
+            ],
+        },
+        // long-lived view objects (second pass: each run below goes through ONE Box<dyn Storage>), single
+        // level: remove(absent) then set; reads in between; remove(present) straight after remove(absent);
+        // set - remove - set of one key; then one read-only object for a run of reads
+        Input {
+            ops: vec![
+                Op::VSet(foo.clone(), true, bs(b"a"), bs(b"1")),
+                Op::VDel(foo.clone(), true, bs(b"zz")),
+                Op::VSet(foo.clone(), true, bs(b"b"), bs(b"2")),
+                Op::VGet(foo.clone(), true, bs(b"b")),
+                Op::VRange(foo.clone(), true, None, None, true),
+                Op::VDel(foo.clone(), true, bs(b"nope")),
+                Op::VDel(foo.clone(), true, bs(b"a")),
+                Op::VGet(foo.clone(), true, bs(b"a")),
+                Op::VSet(foo.clone(), true, bs(b"a"), bs(b"3")),
+                Op::VDel(foo.clone(), true, bs(b"a")),
+                Op::VSet(foo.clone(), true, bs(b"a"), bs(b"4")),
+                Op::VDel(foo.clone(), true, bs(b"y")),
+                Op::VGet(foo.clone(), true, bs(b"ya")),
+                Op::VRange(foo.clone(), true, Some(bs(b"a")), None, false),
+                Op::VSet(foo.clone(), true, bs(b""), bs(b"5")),
+                Op::VRange(foo.clone(), false, None, None, true),
+                Op::VGet(foo.clone(), false, bs(b"b")),
+                Op::VRange(foo.clone(), false, Some(bs(b"a")), Some(bs(b"c")), false),
+                Op::VGet(foo.clone(), false, bs(b"zzb")),
+                Op::VRange(zero.clone(), false, None, None, true),
+            ],
+        },
+        // the same through multi-level views (nested path, and the zero-segment path whose keys ARE raw
+        // keys), over a base that already holds entries; the run ends on a remove(absent)
+        Input {
+            ops: vec![
+                Op::RawSet(bs(b"\x00\x03foo\x00\x00k1"), bs(b"r")),
+                Op::RawSet(bs(b"\x00\x03fook0"), bs(b"s")),
+                Op::VDel(foo_e.clone(), true, bs(b"k0")),
+                Op::VDel(foo_e.clone(), true, bs(b"k1")),
+                Op::VGet(foo_e.clone(), true, bs(b"k1")),
+                Op::VDel(foo_e.clone(), true, bs(b"k1")),
+                Op::VSet(foo_e.clone(), true, bs(b"k1"), bs(b"v")),
+                Op::VDel(foo_e.clone(), true, bs(b"k1")),
+                Op::VDel(foo_e.clone(), true, bs(b"k0")),
+                Op::VRange(foo_e.clone(), true, None, None, true),
+                Op::VSet(foo_e.clone(), true, bs(b"k2"), bs(b"w")),
+                Op::VDel(foo_e.clone(), true, bs(b"k3")),
+                Op::VDel(zero.clone(), true, bs(b"\x00\x03fo")),
+                Op::VSet(zero.clone(), true, bs(b"o"), bs(b"x")),
+                Op::VDel(zero.clone(), true, bs(b"\x00\x03foo")),
+                Op::VDel(zero.clone(), true, bs(b"k0")),
+                Op::VRange(zero.clone(), true, None, None, false),
+                Op::VRange(foo.clone(), false, None, None, true),
+                Op::VGet(foo.clone(), false, bs(b"k0")),
             ],
         },
         // nesting and prefix-freeness: "fo"/"foo"/"food", a key spelling another namespace's prefix
@@ -1056,6 +1158,6 @@ pub fn run(args: &Args) {
     }
     out.finish(
         if args.thorough { 120 } else { 16 },
-        "cases = fixed corpus (F1, F12 witnesses, read-only rejection, nesting) + adversarial family (empty / all-0xFF / 0xFF-ending raw prefixes x every proper prefix of the upper bound etc. x all bound pairs x both orders) + exhaustive (small key alphabet x all write sequences up to a length through 2-3 views x all bound pairs x both orders) + PRNG-generated scripts over 2-3 related views and raw base access; distinct by SHA-256 of the input; non-trivial = at least one write through a mutable view, at least one non-empty range answer through a view, raw store held >= 2 keys",
+        "every script is run twice: a fresh view per operation (raw dump after every operation), and long-lived view objects (each maximal run of consecutive operations on one view through ONE Box<dyn Storage>; raw dump where the object is dropped); cases = fixed corpus (F1, F12 witnesses, read-only rejection, long-lived single / multi-level views with remove-absent-then-set, nesting) + adversarial family (empty / all-0xFF / 0xFF-ending raw prefixes x every proper prefix of the upper bound etc. x all bound pairs x both orders) + exhaustive (small key alphabet x all write sequences up to a length through 2-3 views x all bound pairs x both orders) + PRNG-generated scripts over 2-3 related views and raw base access with bursts of 2-6 operations on one view; distinct by SHA-256 of the input; non-trivial = at least one write through a mutable view, at least one non-empty range answer through a view, raw store held >= 2 keys",
     );
 }
